@@ -31,6 +31,7 @@ func checkC10(w *World, r *Report) {
 	// path reads its own (indexed) batch; a read-only transaction must reflect one state that existed
 	c01ReadOwnBatch(w, r, a, "C10.c", "c-apply-reads-own-batch")
 	c02OneSnapshot(w, r, a, "C10.d", "d-readonly-txn-one-state")
+	c05Batching(w, r, "C10.e", "e-follower-index-not-ahead")
 }
 
 func c10ResultReported(w *World, r *Report, a *FsmA) {
